@@ -22,10 +22,13 @@ def gen(rng, tier):
         o = progs.Opts(open_leaves=0.5 if rng.random() < 0.6 else 0.0, control=rng.random() < 0.5, cut=rng.random() < 0.2, opaque_cut=False, builtins=True,
                        bag_shapes=0.5)
         p = progs.gen_program(rng, o)
-        cases.append({'clauses': p['clauses'], 'queries': p['queries']})
+        c = {'clauses': p['clauses'], 'queries': p['queries']}
+        if any('call:findall' in progs.constructs(b) for _, _, b in p['clauses']):
+            c['three_views'] = True       # see semcheck.compare: Sld.solve is no reference for the identity of collected variables
+        cases.append(c)
     # builtins whose other arguments (bag, extra arguments, terms of = and \=) share variables with a goal whose answers
     # depend on the binding state of those variables (progs.gen_meta_program)
-    for _ in range(110 if tier == 'quick' else 3000):
+    for _ in range(110 if tier == 'quick' else 2500):
         p = progs.gen_meta_program(rng)
         cases.append({'clauses': p['clauses'], 'queries': p['queries'], 'origin': 'meta-shared', 'three_views': True})
     return cases
@@ -48,6 +51,24 @@ def builtin_corpus():
     prog([['n1', [], call('\\=', F('f', V('X'), V('X')), F('f', A('a'), A('b')))], ['n2', [], ['and', call('=', V('Y'), V('X')), call('\\=', F('f', V('X'), V('Y')), F('f', A('a'), A('b')))]],
           ['n3', [V('X')], call('\\=', V('X'), A('a'))], ['n4', [], call('\\=', ['list', [V('X'), V('X')]], ['list', [['num', '1'], ['num', '2']]])]],
          [['n1', []], ['n2', []], ['n3', [V('Q0')]], ['n3', [A('b')]], ['n4', []]])
+    # round 3: a non-variable bag that shares variables with a goal whose later answers depend on them; the bag is matched
+    # only after the enumeration (r(V,X) on its own: X = V, then V = b, X = c)
+    r = [['r', [V('V'), V('X')], call('=', V('X'), V('V'))], ['r', [V('V'), V('X')], ['and', call('=', V('V'), A('b')), call('=', V('X'), A('c'))]],
+         ['e', [A('a'), A('b')], ['true']], ['e', [A('b'), A('c')], ['true']]]
+    bagT = ['pair', A('a'), V('T')]
+    prog([['t1', [V('V'), V('T')], call('findall', V('X'), F('r', V('V'), V('X')), bagT)],
+          ['t2', [V('G'), V('T')], call('findall', V('X'), F('call', V('G'), V('X')), bagT)],
+          ['t3', [V('V')], call('findall', V('X'), F('r', V('V'), V('X')), ['list', [V('_')]])],
+          ['t4', [V('V'), V('P'), V('Q')], call('findall', V('X'), F('r', V('V'), V('X')), ['list', [V('P'), V('Q')]])],
+          ['t5', [V('V'), V('T')], call('findall', V('X'), F('r', V('V'), V('X')), ['pair', V('V'), V('T')])],
+          ['u', [V('N'), V('T')], call('findall', F('p', V('X'), V('N')), F('e', V('X'), V('N')), ['pair', F('p', A('a'), V('N')), V('T')])],
+          ['o', [V('V'), V('X')], ['and', call('once', F('r', V('V'), V('X'))), call('=', V('V'), A('b'))]],
+          ['c', [V('V'), V('X')], ['and', call('call', F('r', V('V')), V('X')), call('\\=', V('V'), A('a'))]]] + r,
+         [['t1', [V('Q0'), V('Q1')]], ['t1', [A('b'), V('Q0')]], ['t1', [A('c'), V('Q0')]], ['t2', [F('r', V('Q0')), V('Q1')]], ['t3', [V('Q0')]],
+          ['t4', [V('Q0'), V('Q1'), V('Q2')]], ['t4', [V('Q0'), V('Q0'), V('Q1')]], ['t5', [V('Q0'), V('Q1')]], ['u', [V('Q0'), V('Q1')]],
+          ['o', [V('Q0'), V('Q1')]], ['c', [V('Q0'), V('Q1')]],
+          ['findall', [V('Q0'), F('r', V('Q1'), V('Q0')), ['pair', A('a'), V('Q2')]]], ['findall', [V('Q0'), F('e', V('Q0'), V('Q1')), ['pair', A('a'), V('Q1')]]]])
+    L[-1]['three_views'] = True
     return L
 
 def nontrivial(case, io):
